@@ -116,6 +116,13 @@ DTW_SETTINGS_DEFAULTS = dict(window=None, use_pruning=False, max_dist=None, max_
 
 # ------------------------------------------------------------------ native execution
 def native_calls(repo, calls, timeout=300):
+    calls2 = []
+    for c in calls:
+        a = dict(c['args'])
+        if 'kwargs' in a and isinstance(a['kwargs'], dict) and 'd' in a['kwargs']:
+            a['**'] = a.pop('kwargs')      # the function's **kwargs parameter
+        calls2.append(dict(func=c['func'].split('#')[0], args=a))
+    calls = calls2
     req = json.dumps({'repo': repo, 'calls': calls})
     p = subprocess.run([VENV_PY, RUNNER], input=req, capture_output=True, text=True, timeout=timeout)
     if p.returncode != 0:
@@ -294,12 +301,22 @@ def small_values(desc, rng, bound):
             kw['psi'] = {'t': [0, 1, 1, 0]} if psi4 else rng.choice([None, 0, 1])
             out.append({'obj': {'module': 'dtw', 'cls': 'DTWSettings', 'kwargs': kw}})
         return out
+    if isinstance(desc, dict):
+        keys = list(desc)
+        doms = [small_values(desc[k], rng, bound) for k in keys]
+        out = []
+        for combo in itertools.product(*doms):
+            out.append({'d': dict(zip(keys, combo))})
+            if len(out) > 200:
+                break
+        return out
     if desc == 'array:val':
         return [{'a': [{'f': float(k + 1).hex()} for k in range(n)]} for n in range(0, bound + 4)]
     if desc == 'series':
         out = []
-        for n in range(0, bound + 1):
-            out.append({'a': [{'f': float(rng.choice([0, 1, -1, 2, 0.5, 3])).hex()} for _ in range(n)]})
+        for n in range(0, bound + 2):
+            for _ in range(2):
+                out.append({'a': [{'f': float(rng.choice([0, 1, -1, 2, 0.5, 3, -2.5])).hex()} for _ in range(n)]})
         return out
     if isinstance(desc, str) and desc.startswith('opt:'):
         return [None] + small_values(desc[4:], rng, bound)
